@@ -261,15 +261,8 @@ def judgeWrap (id : String) (n : Nat) (cfg : WrapCfg) (arg res : Elem) : String 
     | some im =>
       -- is the loss explained by a variable that the code left unwrapped?
       let trips := (arg.filterMap fun d => predictTrip n cfg d).eraseDups
-      -- … i.e. is the image in the result up to the coordinate of that variable?
-      let expl := trips.filter fun x =>
-        let fromRes : List Int := res.flatMap fun d =>
-          match supB n (unitRow x (-1)) 0 d.cs, supB n (unitRow x 1) 0 d.cs with
-          | .val p' q' _, .val p q _ => let lo := -(p' / q'); let hi := p / q; [lo, hi, (lo + hi) / 2]
-          | .val p' q' _, _ => [-(p' / q')]
-          | _, .val p q _ => [p / q]
-          | _, _ => []
-        ((num.getD x 0 / den) :: fromRes).any fun t => res.has (im.set x (t * den)) den
+      -- … and does the lost point overflow on that variable (so that its image depends on wrapping it)?
+      let expl := trips.filter fun x => !inRangeB cfg.r cfg.w (num.getD x 0 / den)
       let note := if expl.isEmpty then "" else s!" trip={expl.head!}"
       ({ s with fail := some s!"v={showPt num den} image={showPt im den}{note}" }, true)
     | none => (s, false)
